@@ -84,11 +84,15 @@ func specA() spectypes.Spec {
 	api := func(n string, cu uint64) *spectypes.Api {
 		return &spectypes.Api{Name: n, ComputeUnits: cu, Enabled: true, Category: spectypes.SpecCategory{Deterministic: true}}
 	}
+	restDbg := spectypes.CollectionData{ApiInterface: "rest", Type: "GET", AddOn: "dbg"}
+	arch := func() []*spectypes.Extension {
+		return []*spectypes.Extension{{Name: "archive", CuMultiplier: 2, Rule: &spectypes.Rule{Block: 100}}}
+	}
 	sp.ApiCollections = []*spectypes.ApiCollection{
-		{Enabled: true, CollectionData: rest, Apis: []*spectypes.Api{api("/a/get", 10)}},
-		{Enabled: true, CollectionData: jr, Apis: []*spectypes.Api{api("a_call", 20)},
-			Extensions: []*spectypes.Extension{{Name: "archive", CuMultiplier: 2, Rule: &spectypes.Rule{Block: 100}}}},
-		{Enabled: true, CollectionData: jrDbg, Apis: []*spectypes.Api{api("a_debug", 50)}},
+		{Enabled: true, CollectionData: rest, Apis: []*spectypes.Api{api("/a/get", 10)}, Extensions: arch()},
+		{Enabled: true, CollectionData: jr, Apis: []*spectypes.Api{api("a_call", 20)}, Extensions: arch()},
+		{Enabled: true, CollectionData: jrDbg, Apis: []*spectypes.Api{api("a_debug", 50)}, Extensions: arch()},
+		{Enabled: true, CollectionData: restDbg, Apis: []*spectypes.Api{api("/a/debug", 50)}, Extensions: arch()},
 	}
 	return sp
 }
@@ -165,7 +169,11 @@ func (s *Sim) BuildWorld() {
 		// every provider stakes on SPB; most on SPA; some on SPC
 		s.doStake(pr, "SPB", 1000+int64(s.R.Intn(100))*1000, s.R.Intn(3) == 0)
 		if i%4 != 3 {
+			if p.PolicyHeavy && i%2 == 0 {
+				s.asym = 1 + i/2
+			}
 			s.doStake(pr, "SPA", 1000+int64(s.R.Intn(100))*1000, false)
+			s.asym = 0
 		}
 		if i%3 == 0 {
 			s.doStake(pr, "SPC", 1000+int64(s.R.Intn(50))*1000, false)
@@ -186,6 +194,26 @@ func (s *Sim) BuildWorld() {
 	}
 	for i := 0; i < max(p.Delegators, 1); i++ {
 		s.Dels = append(s.Dels, s.newAccount(bigBalance))
+	}
+	if p.PolicyHeavy && len(s.Cons) > 0 {
+		// directed shape for the map-order sensitive paths: admin and subscription policy of one project both carry
+		// a mixed requirement with an extension for the same add-on, on different API interfaces
+		c := s.Cons[0]
+		if projs := s.projectsOf(c); len(projs) > 0 {
+			mk := func(iface, typ string) *planstypes.Policy {
+				return &planstypes.Policy{GeolocationProfile: int32(planstypes.Geolocation_GL), TotalCuLimit: 50000, EpochCuLimit: 5000, MaxProvidersToPair: 3,
+					ChainPolicies: []planstypes.ChainPolicy{{ChainId: "SPA", Requirements: []planstypes.ChainRequirement{
+						{Collection: spectypes.CollectionData{ApiInterface: iface, Type: typ, AddOn: "dbg"}, Extensions: []string{"archive"}, Mixed: true}}}, {ChainId: "*"}}}
+			}
+			m1 := &projectstypes.MsgSetPolicy{Creator: c.Addr, Project: projs[0], Policy: mk("rest", "GET")}
+			s.Tx("setpolicy", "directed: admin policy rest+dbg+archive mixed", m1, func(ctx context.Context) (any, error) {
+				return s.TS.Servers.ProjectServer.SetPolicy(ctx, m1)
+			})
+			m2 := &projectstypes.MsgSetSubscriptionPolicy{Creator: c.Addr, Projects: []string{projs[0]}, Policy: mk("jsonrpc", "POST")}
+			s.Tx("setsubpolicy", "directed: subscription policy jsonrpc+dbg+archive mixed", m2, func(ctx context.Context) (any, error) {
+				return s.TS.Servers.ProjectServer.SetSubscriptionPolicy(ctx, m2)
+			})
+		}
 	}
 	s.NextEpoch()
 }
@@ -216,13 +244,34 @@ func (s *Sim) paramChange(module, key, val string) *TxRes {
 
 func (s *Sim) endpointsFor(chain string, geo int32, rich bool) []epochstoragetypes.Endpoint {
 	var eps []epochstoragetypes.Endpoint
+	if chain == "SPA" && s.prof.PolicyHeavy && s.asym > 0 {
+		// asymmetric add-on support (used by the pairing profiles): dbg+archive on exactly one API interface
+		iface := []string{"rest", "jsonrpc"}[s.asym%2]
+		for _, g := range planstypes.GetGeolocationsFromUint(geo) {
+			eps = append(eps, epochstoragetypes.Endpoint{IPPORT: "1.1.1.1:1", Geolocation: int32(g), ApiInterfaces: []string{"rest", "jsonrpc"}})
+			eps = append(eps, epochstoragetypes.Endpoint{IPPORT: "1.1.1.1:2", Geolocation: int32(g), ApiInterfaces: []string{iface}, Addons: []string{"dbg"}, Extensions: []string{"archive"}})
+		}
+		return eps
+	}
 	for _, g := range planstypes.GetGeolocationsFromUint(geo) {
 		switch chain {
 		case "SPA":
 			eps = append(eps, epochstoragetypes.Endpoint{IPPORT: "1.1.1.1:1", Geolocation: int32(g), ApiInterfaces: []string{"rest", "jsonrpc"}})
 			if rich {
-				eps = append(eps, epochstoragetypes.Endpoint{IPPORT: "1.1.1.1:2", Geolocation: int32(g), ApiInterfaces: []string{"jsonrpc"}, Addons: []string{"dbg"}})
-				eps = append(eps, epochstoragetypes.Endpoint{IPPORT: "1.1.1.1:3", Geolocation: int32(g), ApiInterfaces: []string{"jsonrpc"}, Extensions: []string{"archive"}})
+				// which optional services this provider offers is part of the generated world
+				switch s.R.Intn(5) {
+				case 0:
+					eps = append(eps, epochstoragetypes.Endpoint{IPPORT: "1.1.1.1:2", Geolocation: int32(g), ApiInterfaces: []string{"jsonrpc"}, Addons: []string{"dbg"}})
+				case 1:
+					eps = append(eps, epochstoragetypes.Endpoint{IPPORT: "1.1.1.1:2", Geolocation: int32(g), ApiInterfaces: []string{"rest"}, Addons: []string{"dbg"}})
+				case 2:
+					eps = append(eps, epochstoragetypes.Endpoint{IPPORT: "1.1.1.1:3", Geolocation: int32(g), ApiInterfaces: []string{"jsonrpc"}, Extensions: []string{"archive"}})
+				case 3:
+					eps = append(eps, epochstoragetypes.Endpoint{IPPORT: "1.1.1.1:2", Geolocation: int32(g), ApiInterfaces: []string{"jsonrpc"}, Addons: []string{"dbg"}, Extensions: []string{"archive"}})
+					eps = append(eps, epochstoragetypes.Endpoint{IPPORT: "1.1.1.1:3", Geolocation: int32(g), ApiInterfaces: []string{"rest"}, Extensions: []string{"archive"}})
+				default:
+					eps = append(eps, epochstoragetypes.Endpoint{IPPORT: "1.1.1.1:2", Geolocation: int32(g), ApiInterfaces: []string{"jsonrpc", "rest"}, Addons: []string{"dbg"}, Extensions: []string{"archive"}})
+				}
 			}
 		default:
 			eps = append(eps, epochstoragetypes.Endpoint{IPPORT: "2.2.2.2:1", Geolocation: int32(g), ApiInterfaces: []string{"stub"}})
@@ -589,16 +638,25 @@ func (s *Sim) somePolicy() *planstypes.Policy {
 		p.GeolocationProfile = int32(1 + s.R.Intn(3))
 	}
 	if s.prof.PolicyHeavy {
-		switch s.R.Intn(4) {
+		req := func(iface, typ, addon string, ext bool, mixed bool) planstypes.ChainRequirement {
+			r := planstypes.ChainRequirement{Collection: spectypes.CollectionData{ApiInterface: iface, Type: typ, AddOn: addon}, Mixed: mixed}
+			if ext {
+				r.Extensions = []string{"archive"}
+			}
+			return r
+		}
+		mixed := s.R.Intn(2) == 0
+		switch s.R.Intn(7) {
 		case 0:
-			p.ChainPolicies = []planstypes.ChainPolicy{{ChainId: "SPA", Requirements: []planstypes.ChainRequirement{
-				{Collection: spectypes.CollectionData{ApiInterface: "jsonrpc", Type: "POST", AddOn: "dbg"}, Mixed: s.R.Intn(2) == 0}}}, {ChainId: "*"}}
+			p.ChainPolicies = []planstypes.ChainPolicy{{ChainId: "SPA", Requirements: []planstypes.ChainRequirement{req("jsonrpc", "POST", "dbg", false, mixed)}}, {ChainId: "*"}}
 		case 1:
-			p.ChainPolicies = []planstypes.ChainPolicy{{ChainId: "SPA", Requirements: []planstypes.ChainRequirement{
-				{Collection: spectypes.CollectionData{ApiInterface: "jsonrpc", Type: "POST"}, Extensions: []string{"archive"}, Mixed: s.R.Intn(2) == 0}}}, {ChainId: "*"}}
+			p.ChainPolicies = []planstypes.ChainPolicy{{ChainId: "SPA", Requirements: []planstypes.ChainRequirement{req("jsonrpc", "POST", "", true, mixed)}}, {ChainId: "*"}}
 		case 2:
-			p.ChainPolicies = []planstypes.ChainPolicy{{ChainId: "SPA", Requirements: []planstypes.ChainRequirement{
-				{Collection: spectypes.CollectionData{ApiInterface: "rest", Type: "GET"}}}}, {ChainId: "SPB"}}
+			p.ChainPolicies = []planstypes.ChainPolicy{{ChainId: "SPA", Requirements: []planstypes.ChainRequirement{req("rest", "GET", "", false, false)}}, {ChainId: "SPB"}}
+		case 3:
+			p.ChainPolicies = []planstypes.ChainPolicy{{ChainId: "SPA", Requirements: []planstypes.ChainRequirement{req("rest", "GET", "dbg", true, mixed)}}, {ChainId: "*"}}
+		case 4:
+			p.ChainPolicies = []planstypes.ChainPolicy{{ChainId: "SPA", Requirements: []planstypes.ChainRequirement{req("jsonrpc", "POST", "dbg", true, mixed)}}, {ChainId: "*"}}
 		}
 		switch s.R.Intn(4) {
 		case 0:
